@@ -101,7 +101,7 @@ func hold(what string, now func() string) {
 	}
 	holdBudget--
 	h := heldObs{what: what, now: now}
-	h.then = h.render()
+	h.then = string([]byte(h.render())) // a copy of its own: the library may hand out text that shares storage
 	heldAcross = append(heldAcross, h)
 }
 
@@ -122,7 +122,7 @@ func (k *keeper) keep(what string, now func() string) {
 		k.items = k.items[1:]
 	}
 	h := heldObs{what: what, now: now}
-	h.then = h.render()
+	h.then = string([]byte(h.render()))
 	k.items = append(k.items, h)
 }
 
